@@ -110,8 +110,9 @@ def trip_plan_all_requests_allow_pooling(
         else:
             return test_errors
 
-    req_ids, _ = frozenset(zip(*trip_plan))
-    req_ids_unique = frozenset(req_ids)
+    # (unpacking frozenset(zip(*trip_plan)) raised on an empty plan and, the set being unordered, could hand
+    # back the trip phases in place of the request ids)
+    req_ids_unique = frozenset(r_id for r_id, _ in trip_plan)
     initial_errors: Tuple[Tuple[str, ...], Tuple[str, ...]] = ((), ())
     sim_error_req_ids, pool_error_req_ids = ft.reduce(_test_req, req_ids_unique, initial_errors)
     if len(sim_error_req_ids) > 0 and len(pool_error_req_ids) > 0:
